@@ -263,8 +263,7 @@ func main() {
 			res.Returned = false
 		}
 		// goroutines of the injector still alive after a grace period, without any further action by the caller
-		returnedAt := time.Now()
-		deadline := returnedAt.Add(300 * time.Millisecond)
+		deadline := time.Now().Add(300 * time.Millisecond)
 		for {
 			buf := make([]byte, 1<<20)
 			n := runtime.Stack(buf, true)
@@ -277,13 +276,21 @@ func main() {
 					at = append(at, first)
 				}
 			}
+			// a goroutine that has not been scheduled yet shows no frame of the injector, so the verdict "none left" is
+			// taken from the goroutine count (which includes unstarted ones); the stack scan only names the survivors
+			extra := runtime.NumGoroutine() - before
 			res.Leaked, res.LeakedAt = leaked, at
-			// (a goroutine that has not been scheduled yet shows no frame of the injector: do not accept "none left"
-			// before the injector's goroutines had time to start)
-			if (leaked == 0 && (runtime.NumGoroutine() <= before || time.Since(returnedAt) > 40*time.Millisecond)) || time.Now().After(deadline) || !res.Returned {
+			if extra <= 0 {
+				res.Leaked, res.LeakedAt = 0, nil
 				break
 			}
-			time.Sleep(10 * time.Millisecond)
+			if time.Now().After(deadline) || !res.Returned {
+				if res.Returned && extra > res.Leaked {
+					res.Leaked = extra
+				}
+				break
+			}
+			time.Sleep(5 * time.Millisecond)
 		}
 		res.Goroutines = runtime.NumGoroutine() - before
 		res.Events = rt.Events()
